@@ -29,7 +29,30 @@ var (
 	facts = map[string]any{}
 )
 
-func failf(format string, a ...any) { errs = append(errs, fmt.Sprintf(format, a...)) }
+// curTag names the generated file (or, for translated functions, the Props/Trans<prop> module)
+// whose facts are being extracted; every error is reported as `[tag] message`, so that the check
+// of a property can tell a broken tie of its own from one that concerns code it does not depend on.
+var (
+	curTag  string
+	errTags = map[string]bool{}
+)
+
+func failf(format string, a ...any) {
+	msg := fmt.Sprintf(format, a...)
+	if curTag != "" {
+		msg = "[" + curTag + "] " + msg
+		errTags[curTag] = true
+	} else {
+		errTags[""] = true
+	}
+	errs = append(errs, msg)
+}
+
+func tagged(tag string, gen func(string) *leanFile, repo string) *leanFile {
+	curTag = tag
+	defer func() { curTag = "" }()
+	return gen(repo)
+}
 
 // ---------------------------------------------------------------------------------------------
 // parsing helpers
@@ -423,16 +446,16 @@ func main() {
 	}
 
 	var files []*leanFile
-	files = append(files, genAdvertise(*repo))
-	files = append(files, genListener(*repo))
-	files = append(files, genDialer(*repo))
-	files = append(files, genServer(*repo))
-	files = append(files, genConfig(*repo))
-	files = append(files, genPlugin(*repo))
-	files = append(files, genNetstate(*repo))
-	files = append(files, genMetrics(*repo))
-	files = append(files, genMain(*repo))
-	files = append(files, genVerify(*repo))
+	files = append(files, tagged("Advertise", genAdvertise, *repo))
+	files = append(files, tagged("Listener", genListener, *repo))
+	files = append(files, tagged("Dialer", genDialer, *repo))
+	files = append(files, tagged("Server", genServer, *repo))
+	files = append(files, tagged("Config", genConfig, *repo))
+	files = append(files, tagged("Plugin", genPlugin, *repo))
+	files = append(files, tagged("Netstate", genNetstate, *repo))
+	files = append(files, tagged("Metrics", genMetrics, *repo))
+	files = append(files, tagged("Main", genMain, *repo))
+	files = append(files, tagged("Verify", genVerify, *repo))
 
 	// Go → Lean translation of the whitelisted functions (translate.go).  Written even when a
 	// fact above could not be extracted: a stale Trans.lean must not survive a source change.
@@ -441,14 +464,9 @@ func main() {
 		os.Exit(2)
 	}
 
-	if len(errs) > 0 {
-		for _, e := range errs {
-			fmt.Fprintln(os.Stderr, "extract: "+e)
-		}
-		os.Exit(1)
-	}
-
-	// delete stale generated files, then write
+	// delete stale generated files, then write.  A file whose extraction reported an error is
+	// NOT rewritten (its previous content, if any, stays: the driver of a property that does not
+	// depend on it still builds; a property that does depend on it is told about the error).
 	want := map[string]bool{"Trans.lean": true}
 	for _, f := range files {
 		want[f.name+".lean"] = true
@@ -460,11 +478,22 @@ func main() {
 		}
 	}
 	for _, f := range files {
+		if errTags[f.name] || errTags[""] {
+			continue
+		}
 		if err := f.write(*out); err != nil {
 			fmt.Fprintln(os.Stderr, err)
 			os.Exit(2)
 		}
 	}
+	defer func() {
+		if len(errs) > 0 {
+			for _, e := range errs {
+				fmt.Fprintln(os.Stderr, "extract: "+e)
+			}
+			os.Exit(1)
+		}
+	}()
 	if *factsPath != "" {
 		keys := make([]string, 0, len(facts))
 		for k := range facts {
